@@ -171,6 +171,8 @@ def oracle_run(rng, repo, nops, eps_max):
     def run_ops(k):
         for op in beh[k]['ops']:
             if op[0] == 'A':
+                if len(tr.regs) >= 150:
+                    continue          # a callback that keeps re-registering callbacks that do the same is an application fork bomb
                 ecu.add_timer(sim.VT(op[1]), fn[op[2]], op[3]); tr.add(w.now, op[1], op[2], op[3])
             elif op[0] == 'R':
                 ecu.remove_timer(fn[op[1]]); tr.remove(op[1])
